@@ -26,6 +26,8 @@ Inductive op :=
 | OSub (p : bool)     (* Subscribe a new channel; its consumer reads promptly (true) or on command *)
 | OBatch (k : Z)      (* Batch(k, v) where v = the step number of this op *)
 | OAdv (d : Z)        (* the clock advances by d > 0 *)
+| OAdvBatch (d k : Z) (* the clock advances by d > 0 and Batch(k, v) is called AT ONCE, without
+                         waiting for the batcher to come to rest in between (v = this step) *)
 | ORead (i : Z)       (* the consumer of subscriber i is told to receive one value *)
 | OReadAll (i : Z)    (* ... to receive everything from now on *)
 | OCancel (i : Z)     (* subscriber i's context ends *)
@@ -56,12 +58,12 @@ Definition steps : list Z := map fst isc.
 (* virtual time once step r has been carried out *)
 Definition time_after (r : Z) : Z :=
   fold_left (fun acc e => match snd e with
-                          | OAdv d => if fst e <=? r then acc + d else acc
+                          | OAdv d | OAdvBatch d _ => if fst e <=? r then acc + d else acc
                           | _ => acc end) isc 0.
 
 (* Batch calls: (step = value, key) *)
 Definition batches : list (Z * Z) :=
-  flat_map (fun e => match snd e with OBatch k => [(fst e, k)] | _ => [] end) isc.
+  flat_map (fun e => match snd e with OBatch k | OAdvBatch _ k => [(fst e, k)] | _ => [] end) isc.
 
 Definition batch_key (v : Z) : option Z :=
   match find (fun b => fst b =? v) batches with Some b => Some (snd b) | None => None end.
@@ -112,7 +114,7 @@ Definition memZ (x : Z) (l : list Z) : bool := existsb (Z.eqb x) l.
 
 Definition is_call (c : Z) : bool :=
   match nth_error sc (Z.to_nat c) with
-  | Some (OSub _) | Some (OBatch _) | Some OClose => (0 <=? c)
+  | Some (OSub _) | Some (OBatch _) | Some (OAdvBatch _ _) | Some OClose => (0 <=? c)
   | _ => false
   end.
 
@@ -162,7 +164,7 @@ Definition s_suppress : Prop :=
 
 (* 4. "all subscribers see the same sequence": (a) every subscriber receives in due order;
       (b) any two subscribers receive their common values in the same order; (c) a subscriber
-      whose context never ends has no hole: whatever another subscriber received between two
+      whose context never ends has no hole while the batcher is open: whatever another subscriber received between two
       values this one received, this one received too. *)
 Fixpoint sorted_by (f : Z -> Z) (l : list Z) : bool :=
   match l with
@@ -194,13 +196,22 @@ Fixpoint drop_until (f : Z -> bool) (l : list Z) : list Z :=
 Definition between (a b : list Z) : list Z :=
   rev (drop_until (fun x => memZ x a) (rev (drop_until (fun x => memZ x a) b))).
 Definition stays (i : Z) : bool := match cancel_step i with None => true | Some _ => false end.
+(* "While the batcher is open": values still on their way to a consumer when Close is called may be
+   handed over or dropped one by one (the forwarder's selects choose at random once closeCh is
+   closed), so the no-hole requirement is about what a subscriber had received BEFORE the step at
+   which Close was called: nothing another subscriber got between two of THOSE values is missing. *)
+Definition open_vals (i : Z) : list Z :=
+  match close_step with
+  | None => vals i
+  | Some c => map snd (filter (fun e => fst e <? c) (recvs i))
+  end.
 Definition o_no_hole : bool :=
   forallb (fun e1 => negb (stays (fst e1)) ||
-     forallb (fun e2 => forallb (fun x => memZ x (vals (fst e1))) (between (vals (fst e1)) (vals (fst e2)))) isubs)
+     forallb (fun e2 => forallb (fun x => memZ x (vals (fst e1))) (between (open_vals (fst e1)) (vals (fst e2)))) isubs)
     isubs.
 Definition s_no_hole : Prop :=
   forall i j, In i (map fst isubs) -> In j (map fst isubs) -> cancel_step i = None ->
-    forall x, In x (between (vals i) (vals j)) -> In x (vals i).
+    forall x, In x (between (open_vals i) (vals j)) -> In x (vals i).
 
 (* ---------------------------------------------------------------------------------------- *)
 (* back-pressure: at step r some subscriber that is alive and reads only on command may have 52 or
@@ -228,15 +239,29 @@ Definition s_no_wedge : Prop :=
       that has not been superseded in between and was not cut off by Close, every prompt
       subscriber subscribed before that step (and not cancelled by then) has received exactly
       those values, in due order (values with equal due instants: in any order). *)
-(* [tr], [tr1]: the virtual time after step r and after step r-1 *)
+(* [tr], [tr1]: the virtual time after step r and after step r-1. A Batch of the same key issued
+   within step r itself (OAdvBatch: the clock reaches the due instant and Batch is called before the
+   batcher has come to rest) RACES the timer: the old value may be delivered or replaced — it is
+   not required ([fires_at]) but allowed ([races_at]). *)
 Definition fires_at (r tr tr1 : Z) (b : Z * Z) : bool :=
   let v := fst b in
   if v <? r then
     let dv := due v in
     if dv <=? tr then
       if tr1 <? dv then
-        if existsb (fun b' => (v <? fst b') && (fst b' <? r) && (snd b' =? snd b)) batches then false
+        if existsb (fun b' => (v <? fst b') && (fst b' <=? r) && (snd b' =? snd b)) batches then false
         else negb (before close_step r)
+      else false
+    else false
+  else false.
+Definition races_at (r tr tr1 : Z) (b : Z * Z) : bool :=
+  let v := fst b in
+  if v <? r then
+    let dv := due v in
+    if dv <=? tr then
+      if tr1 <? dv then
+        if existsb (fun b' => (v <? fst b') && (fst b' <? r) && (snd b' =? snd b)) batches then false
+        else existsb (fun b' => (fst b' =? r) && (snd b' =? snd b)) batches
       else false
     else false
   else false.
@@ -250,6 +275,11 @@ Definition sort_by (f : Z -> Z) (l : list Z) : list Z := fold_left (fun acc x =>
 
 Definition expected_at (r : Z) : list Z :=
   sort_by due (map fst (filter (fires_at r (time_after r) (time_after (r - 1))) batches)).
+Definition optional_at (r : Z) : list Z :=
+  map fst (filter (races_at r (time_after r) (time_after (r - 1))) batches).
+(* what was received at step r, leaving out the values that were allowed but not required *)
+Definition required_part (r : Z) (got : list Z) : list Z :=
+  let opt := optional_at r in filter (fun x => negb (memZ x opt)) got.
 Fixpoint has_tie (l : list Z) : bool :=
   match l with
   | x :: ((y :: _) as r) => (due x =? due y) || has_tie r
@@ -268,12 +298,12 @@ Definition o_complete : bool :=
        let want := expected_at r in
        forallb (fun e => let i := fst e in let p := fst (snd e) in
           if snd (snd e) && (p <? r) && negb (before (cancel_step i) r)
-          then same_delivery (recv_at i r) want else true) isubs
+          then same_delivery (required_part r (recv_at i r)) want else true) isubs
      else true) steps.
 Definition s_complete : Prop :=
   forall i p, In (i, (p, true)) isubs ->
     forall r, In r steps -> p < r -> r < block_from -> before (cancel_step i) r = false ->
-      same_delivery (recv_at i r) (expected_at r) = true.
+      same_delivery (required_part r (recv_at i r)) (expected_at r) = true.
 (* what [block_from] is: no step before it admits back-pressure *)
 Definition s_block_from : Prop :=
   forall r, In r steps -> r < block_from -> may_block r = false.
